@@ -11,6 +11,13 @@ must produce the label trace observed here.
 
 Transport ops (one producer, namespace '/'):
   ('TEvent', name, [args])   the server emits an event (delivered only while the transport is up)
+  ('TBinHead', name, [args]) the header frame of an event with `bytes` arguments arrives (the real encoding
+                             of the event by packet.Packet: header + one attachment frame per bytes value;
+                             no bytes argument: a plain event)
+  ('TBinAtt',)               the next attachment frame of that event arrives.  The frames of one event are
+                             sent back to back (another packet of the server between them is skipped, as
+                             in the model), but the transport can fail between any two of them: the
+                             frames still in flight are lost with the connection
   ('TLose',)                 the transport fails (read loop error): with reconnection the Client starts
                              its reconnect task, without it the connection is over
   ('TAttempt', 'fail')       the back-off wait of the reconnect task elapses; engine.io cannot connect
@@ -439,6 +446,7 @@ def make_stack(reconnection=True, attempts=0):
 
         def __init__(self):
             self.helpers = []
+            self.frames = []        # attachment frames of the event whose header has been delivered
             self.saved = None
             self.client = None
             self.problems = []
@@ -505,7 +513,7 @@ def make_stack(reconnection=True, attempts=0):
         # ---- one transport op ----
         def _payload(self, client, op):
             from socketio import packet
-            if op[0] == 'TEvent':
+            if op[0] in ('TEvent', 'TBinHead'):
                 return client.packet_class(packet.EVENT, data=[op[1]] + list(op[2]), namespace=NS).encode()
             return client.packet_class(packet.DISCONNECT, namespace=NS).encode()
 
@@ -513,14 +521,29 @@ def make_stack(reconnection=True, attempts=0):
             eio = client.eio
             k = op[0]
             is_async = client.is_asyncio_based()
+            r = None
             if k in ('TEvent', 'TDisc'):
-                r = eio.deliver(self._payload(client, op))
+                if not self.frames:
+                    r = eio.deliver(self._payload(client, op))
+            elif k == 'TBinHead':
+                if not self.frames and eio.state == 'connected':
+                    enc = self._payload(client, op)
+                    if isinstance(enc, list):
+                        self.frames = list(enc[1:])
+                        enc = enc[0]
+                    r = eio.deliver(enc)
+            elif k == 'TBinAtt':
+                if self.frames and eio.state == 'connected':
+                    r = eio.deliver(self.frames.pop(0))
             elif k == 'TLose':
+                if eio.state == 'connected':
+                    self.frames = []
                 r = eio.transport_error()
             elif k == 'TClose':
+                if eio.state == 'connected':
+                    self.frames = []
                 r = eio.server_close()
             elif k == 'TAttempt':
-                r = None
                 if is_async:
                     if eio.co is not None:
                         eio.outcomes = [op[1]]
